@@ -15,7 +15,7 @@ from .control import ControlWorld, gen_command, public_members
 
 def gen_scenario(rng):
     return {"cls": rng.choice(["T", "T", "S", "XT", "XS"]), "size": rng.choice([None, None, 1, 2, 3]), "seed": rng.getrandbits(48),
-            "n": rng.randint(5, 30), "sfunc": rng.choice(["work", "work", "block", "fail"]), "width": rng.choice([80, 80, 60, 200]),
+            "n": rng.randint(5, 30) if rng.random() > 0.08 else rng.randint(80, 150), "sfunc": rng.choice(["work", "work", "block", "fail"]), "width": rng.choice([80, 80, 60, 200]),
             "noise": rng.random() < 0.5}
 
 
@@ -118,6 +118,12 @@ class World(ControlWorld):
                     self.violate("C17.state", f"the ill-formed line {nl!r} of another session changed the pool")
                 self.sit["C17.noise_lines"] += 1
                 s.new_writes()
+            if "vf.lazy." in cmd.line:
+                from .control import set_import_state
+
+                depth = rng.randrange(5)
+                set_import_state(depth)
+                self.sit[f"C17.lazy_path.preimported_{depth}"] += 1
             got = await self.send(s, cmd.line)
             outcome = await self.direct(twin, cmd)
             await self.idle()
